@@ -268,6 +268,24 @@ func windowed(kind string) bool {
 	return kind == "Update" || kind == "WriteUpdateWithXattrs" || kind == "WriteSubDoc" || kind == "SubdocInsert"
 }
 
+// The pair (nested call, enclosing call) has one sequential reading only when the enclosing call either
+// retries after losing the race (cas 0 / Update) or cannot lose it (the nested call leaves the CAS alone):
+// with an explicit CAS, or a callback result validated against the version it was shown, the call fails
+// without a retry and with an error that depends on where the race was lost.
+func windowOK(st Step) bool {
+	if st.Nested == nil || st.Op == nil || !windowed(st.Op.Kind) || st.Nested.Cb != nil {
+		return false
+	}
+	touch := st.Nested.Kind == "Touch" || st.Nested.Kind == "GetAndTouchRaw"
+	switch st.Op.Kind {
+	case "WriteUpdateWithXattrs":
+		return touch
+	case "WriteSubDoc", "SubdocInsert":
+		return touch || st.Op.CasMode == "zero"
+	}
+	return true
+}
+
 // called at every pass through the window of the enclosing call
 func (k *kvRun) windowPass() {
 	w := k.win
@@ -1173,7 +1191,7 @@ func execKvInner(in kvInput, scratch string, prog *kvProgress) (Case, error) {
 			if st.Op.Cb != nil && st.Op.Cb.NewExp != nil && *st.Op.Cb.NewExp > 0 && *st.Op.Cb.NewExp <= 2592000 {
 				usesRelExp = true
 			}
-			if st.Nested != nil && windowed(st.Op.Kind) && st.Nested.Cb == nil {
+			if st.Nested != nil && windowOK(st) {
 				ne := st.Nested.Exp
 				if ne > 0 && ne <= 2592000 {
 					usesRelExp = true
